@@ -53,7 +53,10 @@ def selection_obligations(rep):
             if not ok:
                 bad.append(f"line {c.lineno}: `{ast.unparse(c)[:80]}`")
         oid = f"{fq}::ensures:selects-exactly-the-product-spaces-holding-an-addressed-subsystem"
-        st = "discharged" if comps and not bad else "failed"
+        if not comps:
+            rep.not_covered(fq, ast.get_source_segment(src, fn) or "", "no block-selection comprehension over self.states / self.product_states found")
+            continue
+        st = "discharged" if not bad else "failed"
         rep.add_ob(Obligation(oid, fq, "ensures", "pyvc", st, detail="; ".join(bad) or f"{len(comps)} selection comprehension(s)"))
         if st != "discharged":
             rep.violation(f"{fq}: product-space selection is not `those holding an addressed subsystem`: {'; '.join(bad) or 'no selection found'}",
@@ -100,7 +103,10 @@ def combine_selection_obligation(rep):
         if not ok:
             bad.append(f"line {a.lineno}: `{ast.unparse(a)[:70]}`")
     oid = f"{fq}::ensures:pulls-in-exactly-the-product-spaces-holding-an-operand"
-    st = "discharged" if appends and not bad else "failed"
+    if not appends:
+        rep.not_covered(fq, ast.get_source_segment(src, fn) or "", "no `existing_product_states.append(...)` selection site found")
+        return
+    st = "discharged" if not bad else "failed"
     rep.add_ob(Obligation(oid, fq, "ensures", "pyvc", st, detail="; ".join(bad) or f"{len(appends)} selection site(s)"))
     if st != "discharged":
         rep.violation(f"{fq}: product spaces are pulled into the merge by something other than `operand in space.state_objs`: {'; '.join(bad) or 'no selection found'}",
